@@ -56,6 +56,9 @@ pub use connection::{
     Probe as VerifProbe, SpaceProbe as VerifSpaceProbe, StreamsProbe as VerifStreamsProbe,
 };
 
+#[cfg(feature = "__verif")]
+pub mod verif_comp;
+
 #[cfg(feature = "rustls")]
 pub use rustls;
 
@@ -103,6 +106,9 @@ pub use token::{NoneTokenLog, NoneTokenStore, TokenLog, TokenReuseError, TokenSt
 
 mod token_memory_cache;
 pub use token_memory_cache::TokenMemoryCache;
+
+#[cfg(feature = "__verif")]
+pub mod verif_codec;
 
 #[cfg(feature = "arbitrary")]
 use arbitrary::Arbitrary;
